@@ -207,6 +207,8 @@ func (i *interpreter) spawnThread(pos token.Pos, fn value, args []value, harness
 		name = f.String()
 	case *closure:
 		name = f.Fn.String()
+	case *nativeFunc:
+		name = f.name
 	}
 	if i.P.parkForever[name] {
 		return // e.g. `go func(){ <-ctx.Done(); ... }()` with a context that is never cancelled
